@@ -15,8 +15,9 @@ import numpy as np
 from harness import alpha, core, gamma, lattice, shims, tlc, util
 
 INV = ["PointRefines", "Emit"]
-FIELDS = ["u", "v", "w"]
-SELS = ["v", 2, ["u", "w"], [0, 1, 2]]
+FIELDS = ["u", "v", "w", "f3", "f4", "f5", "f6", "f7"]
+# single names / indexes (also negative), contiguous lists, lists with gaps (one gap, two gaps, not starting at the first field)
+SELS = ["v", 2, ["u", "w"], [0, 1, 2], [1, 4, 6], -1, ["v", "f5"], [0, 3, 5, 7], "f7", [2, 3, 6]]
 
 
 def models(tier):
@@ -108,7 +109,7 @@ def run_scenario(chk, world, sc, cfgseed, axes, sel):
         if exc is not None:
             return "query %d (%r) at the centre of level-%d cell %r raised %s: %s" % (qi + 1, sel, l, idx, type(exc).__name__, str(exc)[:150])
         names = sel if isinstance(sel, list) else [sel]
-        fis = [(FIELDS.index(n) if isinstance(n, str) else n) + 1 for n in names]
+        fis = [(FIELDS.index(n) if isinstance(n, str) else n % len(FIELDS)) + 1 for n in names]
         got = np.atleast_1d(np.asarray(got, dtype=float)).ravel()
         if got.shape[0] != len(fis):
             return "query %r returned %d values for %d fields" % (sel, got.shape[0], len(fis))
